@@ -13,6 +13,8 @@ Generic runner `cbmc_query(qid, params, ctx)`; params keys:
   replay       bool (default True): on failure, replay the inputs natively (gcc + ASan/UBSan)
   finding_key  optional python expression evaluated over the counterexample inputs `I` to give a key
   object_bits  default 12
+  hunt_unwind  optional: first run cbmc with this blanket bound and WITHOUT unwinding assertions (bug hunting only); a
+               reproduced failure is reported, otherwise the full bounded run decides
   instrument   list of [repo-relative source, output file name, anchor regex, text(, "replace")]: a copy of the CURRENT /repo
                source with `text` inserted on a line of its own before the one line matching the anchor (or, with
                "replace", substituted for the matched text) is generated into
@@ -321,24 +323,50 @@ def cbmc_query(qid, params, ctx):
             gbs = [out]
         return gbs, ""
 
-    def run_cbmc(gbs, trace):
+    def run_cbmc(gbs, trace, hunt=None):
         cmd = ["cbmc"] + gbs + ["--function", params.get("entry", "harness"), "--json-ui", "--verbosity", "8",
-                                "--object-bits", str(params.get("object_bits", 12))] + BASE_FLAGS
-        if params.get("unwind") is not None:
-            cmd += ["--unwind", str(params["unwind"])]
-        if params.get("unwindset"):
-            cmd += ["--unwindset", ",".join(params["unwindset"])]
+                                "--object-bits", str(params.get("object_bits", 12))]
+        if hunt is None:
+            cmd += BASE_FLAGS
+            if params.get("unwind") is not None:
+                cmd += ["--unwind", str(params["unwind"])]
+            if params.get("unwindset"):
+                cmd += ["--unwindset", ",".join(params["unwindset"])]
+        else:       # shallow pre-pass (`hunt_unwind`): no unwinding assertions => can only FIND violations, never prove
+            cmd += [f for f in BASE_FLAGS if f != "--unwinding-assertions"] + ["--no-unwinding-assertions", "--unwind", str(hunt)]
+            if params.get("unwindset"):     # helper loops (byte loops of the memory model, ...) keep their own bounds
+                cmd += ["--unwindset", ",".join(params["unwindset"])]
         cmd += params.get("flags", [])
         if trace:
             cmd += ["--trace"]
-        rc, out, err, dt = run(cmd, timeout, mem)
+        rc, out, err, dt = run(cmd, min(timeout, 300) if hunt is not None else timeout, mem)
         return rc, out, err, dt, cmd
 
     gbs, msg = build([], "")
     if gbs is None:
         return {"status": ERROR, "detail": msg}
-    rc, out, err, dt, cmd = run_cbmc(gbs, True)
+    hunted = None
+    if params.get("hunt_unwind") is not None:
+        # Stage 1, bug hunting only: loops cut after `hunt_unwind` iterations WITHOUT unwinding assertions.  A failure found
+        # here is a real path prefix (the counterexample is replayed natively like any other); no failure proves nothing and
+        # the full bounded run below decides.  Used where a defect makes the full run explode before it can answer.
+        rc, out, err, dt0, cmd = run_cbmc(gbs, True, hunt=params["hunt_unwind"])
+        d0 = parse_cbmc_json(out) if rc != -999 else None
+        r0 = None
+        for item in d0 or []:
+            if "result" in item:
+                r0 = item["result"]
+        if r0 is not None:
+            v0, _, _ = classify(r0, params.get("remove", []))
+            if v0:
+                hunted = (rc, out, err, dt0, cmd)
+    if hunted is not None:
+        rc, out, err, dt, cmd = hunted
+    else:
+        rc, out, err, dt, cmd = run_cbmc(gbs, True)
     res = {"solver_time_s": dt, "stats": {}, "cmd": " ".join(cmd)}
+    if hunted is not None:
+        res["found_by"] = "shallow pre-pass (--unwind %s, no unwinding assertions)" % params["hunt_unwind"]
     if rc == -999:
         res.update(status=UNDECIDED, detail="timeout %ss" % timeout)
         return res
